@@ -24,3 +24,14 @@ func TestC05(t *testing.T) {
 		Run: runCase(t),
 	})
 }
+
+// TestC05Directed runs the same oracles on the identifier-confusion corner of the case space (see genDirected).
+func TestC05Directed(t *testing.T) {
+	vx.Check(t, vx.Prop[mcase]{
+		ID:        "C05",
+		Rule:      "as TestC05, narrowed to worlds where a sibling identifier on the proof chain equals the identifier the message names for the other chain, with single-mutation trials drawn from the wrong-key / wrong-counterparty catalogue entries; non-trivial and distinctness as TestC05",
+		MinNTFrac: 0.6,
+		Gen:       genDirected("C05"),
+		Run:       runCase(t),
+	})
+}
